@@ -132,6 +132,7 @@ type LSeries struct {
 	Fp     uint64      `json:"fp"`
 	Labels [][2]string `json:"labels"`
 	Days   []int64     `json:"days"`
+	Log    bool        `json:"log,omitempty"` // a LOG stream (rows of type 1): PromQL must not read its label set
 }
 
 // one Select of a multi-Select run on ONE querier object
@@ -1097,6 +1098,7 @@ func runQuerier(c *Case) {
 // several Selects on ONE querier, as the PromQL engine issues them for a query with several selectors / offsets:
 // windows on the same and on other UTC days, series announced only on some days
 func genMulti(r *rand.Rand, c *Case) {
+	logTwin := false
 	day := int64(19700 + r.Intn(30))
 	c.Ctx = &Ctx{Type: 2, Cluster: r.Intn(5) == 0}
 	n := 2 + r.Intn(4)
@@ -1121,6 +1123,15 @@ func genMulti(r *rand.Rand, c *Case) {
 		c.LDB = append(c.LDB, s)
 	}
 	sort.Slice(c.LDB, func(i, j int) bool { return c.LDB[i].Fp < c.LDB[j].Fp })
+	if rs := hx.Rand(int64(day)*7919 + int64(len(c.LDB))*104729 + int64(c.ID)); rs.Intn(3) == 0 && len(c.LDB) > 0 {
+		// a log stream whose fingerprint collides with a metric series' (32-bit Bernstein fingerprints make that ordinary):
+		// its series rows carry another label set and come after the metric series' rows in the reply
+		i := rs.Intn(len(c.LDB))
+		twin := LSeries{Fp: c.LDB[i].Fp, Days: c.LDB[i].Days, Log: true,
+			Labels: [][2]string{{"job", "logs-" + pick(rs, []string{"a", "b"})}, {"stream", "stdout"}}}
+		c.LDB = append(c.LDB[:i+1], append([]LSeries{twin}, c.LDB[i+1:]...)...)
+		logTwin = true
+	}
 	k := 2 + r.Intn(3)
 	class := "multi-same-day"
 	sameDay := r.Intn(3) == 0
@@ -1151,6 +1162,9 @@ func genMulti(r *rand.Rand, c *Case) {
 			call.Ms, _ = genMatchers(r)
 		}
 		for _, s := range c.LDB { // rows of the series announced on the day of this window
+			if s.Log {
+				continue // the samples query is typed: no rows of a log stream
+			}
 			on := false
 			for _, sd := range s.Days {
 				on = on || sd == d
@@ -1167,6 +1181,9 @@ func genMulti(r *rand.Rand, c *Case) {
 		c.Calls = append(c.Calls, call)
 	}
 	c.Class = []string{class}
+	if logTwin {
+		c.Class = append(c.Class, "log-twin-fingerprint")
+	}
 }
 
 func runMulti(c *Case) {
@@ -1175,7 +1192,7 @@ func runMulti(c *Case) {
 	sc := &script{ldb: []labelDay{}}
 	for _, s := range c.LDB {
 		for _, d := range s.Days {
-			sc.ldb = append(sc.ldb, labelDay{s.Fp, d, s.Labels})
+			sc.ldb = append(sc.ldb, labelDay{s.Fp, d, s.Labels, s.Log})
 		}
 	}
 	reg := newRegistry(c.Ctx.Cluster)
